@@ -235,6 +235,9 @@ impl<'a> StringParser<'a> {
                     if expression.trim().is_empty() {
                         return Err(FStringError::new(EmptyExpression, self.get_pos()).into());
                     }
+                    if self_documenting {
+                        return Err(FStringError::new(UnclosedLbrace, self.get_pos()).into());
+                    }
                     self_documenting = true;
                 }
 
